@@ -9,7 +9,8 @@
   of the document are plain `List Block`.  `shapeOk` says what they hold:
 
   * `.list`: at least one child, every child a `.listItem`, and `start` read off the first child's
-    leader (`leaderStartOk`);
+    leader (`leaderStartOk`): the leader is a list marker (`isMarker`: `-`, `+`, `*`, or 1–9 digits and
+    `.`/`)`), a bullet ↔ `start = none`, an ordered marker ↔ `start = some (int(digits))` (< 10^9);
   * `.listItem`, `.quote`, document: no child is a `.listItem`, `.tableRow`, `.tableCell` (`isFlow`);
   * `.table`: `header` holds at most one block; every block of `header`/`rows` is a `.tableRow`;
   * `.tableRow`: every child is a `.tableCell` (whose children are inline by typing);
@@ -131,6 +132,20 @@ theorem parseNat_lt_of_len (s : Str) (h : s.length ≤ 9) : parseNat s < 1000000
   have h2 : 10 ^ s.length ≤ 10 ^ 9 := Nat.pow_le_pow_right (by decide) h
   have : (10 : Nat) ^ 9 = 1000000000 := by decide
   omega
+
+/-- on ASCII digits `digitVal` is the usual value, so `parseNat` reads an ASCII numeral in base ten
+    (other `\d` characters - Unicode decimal digits - are read as `int` reads them) -/
+theorem digitVal_ascii (c : Char) (h1 : 48 ≤ c.toNat) (h2 : c.toNat ≤ 57) : digitVal c = c.toNat - 48 := by
+  unfold digitVal Gen.Python.decimalDigits
+  rw [List.find?_cons_of_pos (by simp [h1, h2])]
+  simp only
+  omega
+
+theorem parseNat_snoc (s : Str) (c : Char) : parseNat (s ++ [c]) = parseNat s * 10 + digitVal c := by
+  simp [parseNat, List.foldl_append]
+
+example : parseNat "3".toList = 3 ∧ parseNat "123456789".toList = 123456789 ∧ parseNat "007".toList = 7 := by
+  decide +kernel
 
 /-- for a list marker, the `start` that `List.__init__` computes agrees with it -/
 theorem leaderStartOk_mk (leader : Str) (h : isMarker leader = true) :
@@ -761,6 +776,8 @@ theorem C12_parsed_shape_str (cfg : Document.Cfg) (gas : Nat) (t : Str) (d : Doc
 
 /-! ### Non-vacuity -/
 
+namespace ShapeSample
+
 /-- the default configuration (no renderer active), literally -/
 def cfgD : Document.Cfg :=
   { block := { types := [.blockCode, .heading, .quote, .codeFence, .thematicBreak, .list, .table, .footnote, .paragraph] },
@@ -828,10 +845,19 @@ example : (Block.list false none [.listItem ['3', '.'] 0 3 false [] 1] 1).shapeO
 example : (Block.list false (some 3) [.listItem ['-'] 0 2 false [] 1] 1).shapeOk = false := by decide +kernel
 example : (Block.list false (some 3) [.listItem ['3', '.'] 0 3 false [] 1] 1).shapeOk = true := by decide +kernel
 example : (Block.list false none [] 1).shapeOk = false := by decide
+/-- a leader that is no list marker -/
+example : (Block.list false none [.listItem ['x'] 0 2 false [] 1] 1).shapeOk = false := by decide +kernel
+example : (Block.list false (some 3) [.listItem ['3', ':'] 0 3 false [] 1] 1).shapeOk = false := by decide +kernel
+example : (Block.list false (some 3) [.listItem ['3', ')'] 0 3 false [] 1] 1).shapeOk = true := by decide +kernel
+example : (Block.table [none] [.tableRow [none] [] 1, .tableRow [none] [] 1] [] 1).shapeOk = false := by decide
+example : (Block.table [none] [] [.tableRow [none] [.paragraph [] 1] 1] 1).shapeOk = false := by decide
+example : (Block.setextHeading 3 [] [] 1).shapeOk = false := by decide
 
 /-- the theorem applied to the sample -/
 example (d : Doc) (h : Document.parse cfgD 60 sampleText = .ok d) : d.shapeOk = true :=
   C12_parsed_shape_str cfgD 60 sampleText d h
+
+end ShapeSample
 
 end Mistletoe.Props.C12
 
